@@ -595,6 +595,8 @@ type vfC03Run struct {
 	dead    bool // an L1 sum failure desynchronised ledger and manager: stop judging this walk
 	cfgDump map[string]any
 	last    map[string]vfC03Vec // the usage every scope reported after the previous step
+	// "handle|call": that re-parenting call was refused for a limit on that object earlier in the walk
+	refusedBefore map[string]bool
 }
 
 func vfC03ErrClass(err error) string {
@@ -919,6 +921,15 @@ func (r *vfC03Run) openConnAs(id string, unit vfC03Vec, ep string) func() {
 	}
 }
 
+func vfC03Subset(xs, ys []string) bool {
+	for _, x := range xs {
+		if !vfC03In(ys, x) {
+			return false
+		}
+	}
+	return true
+}
+
 func vfC03In(xs []string, x string) bool {
 	for _, y := range xs {
 		if x == y {
@@ -934,8 +945,15 @@ func (r *vfC03Run) l1class(clause string, op vfh.Op, refused bool, bad []string)
 	switch {
 	case clause == "sum" && op.Name() == "gc" && r.onlyDirectMemoryCollected(bad):
 		return "sum:gc:scope-holding-only-reserved-memory-collected"
-	case clause == "sum" && op.Name() == "setpeer" && refused && r.lg.objs[op.S("h")].al:
+	case clause == "sum" && op.Name() == "setpeer" && refused && r.lg.objs[op.S("h")].al && !r.refusedBefore[op.S("h")+"|setpeer"] &&
+		vfC03Subset(bad, []string{"asys", "atrans"}):
+		// the first refused SetPeer of an allow-listed connection left it charged in NO scope (only the
+		// allow-listed scopes lost it, nothing else moved): the open finding; anything else is a new class
 		return "reparent:setpeer:refused-transfer-from-allowlisted-scopes"
+	case clause == "sum" && vfC03In([]string{"setpeer", "setprotocol", "setservice"}, op.Name()) && r.refusedBefore[op.S("h")+"|"+op.Name()]:
+		// the same re-parenting call had been refused on this object before: the retry is not charged
+		// exactly once in a consistent set of scopes
+		return "reparent:" + op.Name() + ":retry-after-refusal-inconsistent-charge"
 	}
 	k := clause + ":" + op.Name()
 	if refused {
@@ -1073,7 +1091,18 @@ func (r *vfC03Run) doStep(op vfh.Op) string {
 			r.mismatch("sum:aggregate-stat", fmt.Sprintf("ResourceManagerState.Stat() and the view of %s disagree after %s", s, vfC03OpStr(op)), after[s], v)
 		}
 	}
+	r.noteRefusal(op, got)
 	return got
+}
+
+// noteRefusal remembers a re-parenting call refused for a limit (the retry gets its own class key)
+func (r *vfC03Run) noteRefusal(op vfh.Op, got string) {
+	if got == "limit" && vfC03In([]string{"setpeer", "setprotocol", "setservice"}, op.Name()) {
+		if r.refusedBefore == nil {
+			r.refusedBefore = map[string]bool{}
+		}
+		r.refusedBefore[op.S("h")+"|"+op.Name()] = true
+	}
 }
 
 func vfC03OpStr(op vfh.Op) string {
@@ -1363,12 +1392,14 @@ func vfC03RandomConf(rnd *rand.Rand, i int) *vfC03Conf {
 		return l
 	}
 	cf := &vfC03Conf{Fam: "random", Inf: vfC03RandInf, Deflim: L(), Peers: []string{"p1", "p2"}, Protos: []string{"a"},
-		Svcs: []string{"x"}, Eps: []string{"n0", "a1", "a2", "v6"},
-		Epb: vfC03M[[]string]{"a1": {"a1/32", "a/24"}, "a2": {"a2/32", "a/24"}, "v6": {"v6/56"}, "n0": {}},
-		Cap: vfC03M[int]{"a1/32": 1 + rnd.Intn(2), "a/24": 1 + rnd.Intn(3), "v6/56": 1 + rnd.Intn(2)},
+		Svcs: []string{"x"}, Eps: []string{"n0", "a1", "a2", "v6", "b1", "b1"},
+		// b1 is allow-listed for p1 only (its prefix limit is out of reach: the open subnet finding is not the subject here)
+		Epb: vfC03M[[]string]{"a1": {"a1/32", "a/24"}, "a2": {"a2/32", "a/24"}, "v6": {"v6/56"}, "b1": {"np:b1"}, "n0": {}},
+		Cap: vfC03M[int]{"a1/32": 1 + rnd.Intn(2), "a/24": 1 + rnd.Intn(3), "v6/56": 1 + rnd.Intn(2), "np:b1": 64},
+		AllowPeer: [][]string{{"b1", "p1"}},
 		Lim: vfC03M[vfC03Lim]{}}
 	cf.Cap["a2/32"] = cf.Cap["a1/32"]
-	for _, k := range []string{"sys", "trans", "peer:p1", "peer:p2", "proto:a", "proto:a.peer", "svc:x", "svc:x.peer", "conn", "stream"} {
+	for _, k := range []string{"sys", "trans", "asys", "atrans", "peer:p1", "peer:p2", "proto:a", "proto:a.peer", "svc:x", "svc:x.peer", "conn", "stream"} {
 		if rnd.Intn(4) > 0 {
 			cf.Lim[k] = L()
 		}
